@@ -156,3 +156,6 @@ _r2("C15", "load-bearing scalar expressions, slices and loop bodies regenerated 
 _r2("C10", "per-label centre finder, compute_batches join-or-open test and the partition all-equal test regenerated from util.py (translator/tr_cluster.py) and proved equal to the model",
     "generated tests plugged into code-shaped skeletons equal argmin_label / cb_loop / square.",
     "")
+_r2("C19", "second whole-tree scan: every uninitialising allocation (np.empty, empty_like, ndarray(shape), ...) must be completely written before it is read (per-site Coq obligation in Gen/AllocSites.v) and result caches keyed on identity / paths are rejected by name; in-place-overwrite and file-rewrite history probes",
+    "write-before-read characterised exactly (heap-independent iff every cell is stored to), covering lemmas for the fill / full-assignment / enumerate-loop / cursor-loop patterns, every uninitialised allocation of the tree heap-independent; an identity-keyed cache is exactly what the overwrite probe detects.",
+    "MPI receive-buffer semantics trusted; syntactic recognisers and allocator / cache-idiom lists of translator/sites.py trusted.")
